@@ -514,17 +514,13 @@ func (c *chroniclerV2) ensureWriter() error {
 		return nil
 	}
 
-	// Check if this is a new file (doesn't exist yet)
-	isNewFile := false
-	if _, err := os.Stat(c.hydFilePath); os.IsNotExist(err) {
-		isNewFile = true
-	}
-
 	var writer *v2.FileWriter
 	var err error
 
-	if isNewFile && c.swampName != "" {
-		// New file: use V3 format with name in header area
+	if c.swampName != "" {
+		// New file: use V3 format with name in header area.
+		// Existing file: the format is preserved; the name is only needed if
+		// the file turns out to be the empty leftover of an interrupted creation.
 		writer, err = v2.NewFileWriterWithName(c.hydFilePath, c.maxBlockSize, c.swampName)
 	} else {
 		// Existing file: preserve format (V2 or V3)
